@@ -35,6 +35,7 @@ import (
 	"bazil.org/fuse"
 	"github.com/superfly/litefs"
 	"github.com/superfly/litefs/verifharness/core"
+	"github.com/superfly/litefs/verifharness/faults"
 	"github.com/superfly/litefs/verifharness/sim"
 	"github.com/superfly/ltx"
 )
@@ -1798,6 +1799,8 @@ func main() {
 	if tl.okN["snapshot/wal"] == 0 || tl.okN["export/wal"] == 0 || tl.okN["snapshot/rb"] == 0 || tl.okN["export/rb"] == 0 {
 		core.Infra("vacuous run: no successful attempt in some kind/mode: %v", tl.okN)
 	}
+	// failure paths (spec/Faults.tla): every call of the operation through the OS interface fails once
+	faults.Run(rep, args, faults.Select{Ops: []string{"import", "halt", "recover"}, Monitors: []string{"export"}})
 	rep.Finish()
 }
 
